@@ -129,7 +129,26 @@ func (g *c20gen) inner() (c20Inner, exp) {
 }
 
 func (g *c20gen) timeVal() (time.Time, exp) {
-	t := time.Date(1990+g.r.Intn(60), time.Month(1+g.r.Intn(12)), 1+g.r.Intn(28), g.r.Intn(24), g.r.Intn(60), g.r.Intn(60), 0, time.UTC)
+	// any zone (whole hours, half and quarter hours, offsets below one hour of either sign, offsets with seconds, the
+	// extremes), any year a layout can print (before 1000, after 9999, zero), with and without a fraction of a second
+	loc := time.UTC
+	if g.r.P(2, 3) {
+		offs := []int{0, 3600, -3600, 19800, -12600, 1800, -1800, 60, -60, -59 * 60, 59 * 60, -1, 1, -2670, 45900, 50400, -43200, 86399, -86399}
+		name := []string{"", "X", "LMT"}[g.r.Intn(3)]
+		loc = time.FixedZone(name, offs[g.r.Intn(len(offs))])
+	}
+	year := 1990 + g.r.Intn(60)
+	if g.r.P(1, 6) {
+		year = []int{0, 1, 33, 999, 1000, 9999, 10000, 12345, -1, 1582, 1969, 1970}[g.r.Intn(12)]
+	}
+	ns := 0
+	if g.r.P(1, 3) {
+		ns = []int{1, 500000000, 999999999, 120000000, 1000}[g.r.Intn(5)]
+	}
+	t := time.Date(year, time.Month(1+g.r.Intn(12)), 1+g.r.Intn(28), g.r.Intn(24), g.r.Intn(60), g.r.Intn(60), ns, loc)
+	if g.r.P(1, 40) {
+		t = time.Time{}
+	}
 	return t, exp{kind: "string", s: t.Format(g.timeFmt)}
 }
 
